@@ -3,6 +3,7 @@ package main
 // Query rendering and the solver race.
 
 import (
+	"sync/atomic"
 	"bytes"
 	"context"
 	"crypto/sha1"
@@ -279,6 +280,7 @@ type SolveOpts struct {
 	Dir      string
 	Parallel int
 	CrossCheck bool
+	StopAfter  int // stop attempting further obligations after this many have failed (0: never)
 }
 
 var solveCache sync.Map
@@ -303,13 +305,22 @@ func (w *World) solveAll(obls []*Obl, opt SolveOpts) {
 		o.Size = len(t1)
 		texts[o] = [2]string{t1, ""}
 	}
+	var failures int32
 	for i := 0; i < opt.Parallel; i++ {
 		wg.Add(1)
 		go func() {
 			defer wg.Done()
 			for o := range jobs {
+				if opt.StopAfter > 0 && atomic.LoadInt32(&failures) >= int32(opt.StopAfter) {
+					// the verdict is settled: the remaining obligations are not attempted
+					o.Status, o.Solver = "not-attempted", "none"
+					continue
+				}
 				tx := texts[o]
 				w.solveOne(o, tx[0], opt)
+				if o.Status != "unsat" {
+					atomic.AddInt32(&failures, 1)
+				}
 			}
 		}()
 	}
